@@ -2,7 +2,7 @@
   Helper lemmas for the C04 simulation theorem — part 4: what one visit of each flow-control
   line does to the machine (keyword resolution, openers, else-lines, end lines).
 -/
-import DuckModel.Lemmas.SimInv
+import DuckModel.Lemmas.SimCond
 
 namespace Duck
 open Duck.Spec Duck.Generated
@@ -78,74 +78,84 @@ theorem resolve_fullEndFor (s : Sdk) : resolveCmd s fullNameEndForIn = some .end
 
 /-! ### the `if` line -/
 
+/-- what the step lemmas need to know about the condition on the line: the bound words are not
+    empty and `evalCondition` says `b`, leaving `em` in `emitted` -/
+def CondSays (is : List Instruction) (args : List Str) (v : Vars) (E : List (List Str)) (b : Bool)
+    (em : List (List Str)) : Prop :=
+  args.isEmpty = false ∧
+    ∀ f, 3 ≤ f → ∀ (s' : Sdk), s'.fns = [] → s'.emitted = E →
+      evalCondition (evalInstrsF f) is args v s' = (.ok b, v, { s' with emitted := em })
+
 theorem step_if_true (is : List Instruction) (lo : Nat) (v : Vars) (s : Sdk) (mi : Meta)
-    (kwIf : Str) (cond : List Str) (mid : List Nat) (stop : Nat)
+    (kwIf : Str) (cond : List Str) (mid : List Nat) (stop : Nat) (em : List (List Str))
     (hi : is[lo]? = some ⟨mi, .script (mkInstr none kwIf cond)⟩) (hk : isIfKw kwIf = true)
-    (hcs : condSimple cond = true) (hf : s.fns = []) (hc : CacheOK is s)
+    (hf : s.fns = []) (hc : CacheOK is s)
     (hscan : findCommands ifTables is (lo + 1) = .ok ⟨mid, stop⟩)
-    (hv : condVal (bind v (some cond)) = .ok true) :
+    (hv : CondSays is (bind v (some cond)) v s.emitted true em) :
     ∃ M, Steps is lo v s (lo + 1) v
         { s with ifMeta := M, endTable := s.endTable.put (lineKey s stop) fullNameEndIf,
+                 emitted := em,
                  ifStack := { current := (match mid with | [] => stop | e :: _ => e), passed := true,
                               elseIdx := 0, start := lo, stop := stop, elses := mid,
                               ctx := s.lineCtx } :: s.ifStack } ∧
       CacheOK is { s with ifMeta := M, endTable := s.endTable.put (lineKey s stop) fullNameEndIf } := by
   obtain ⟨M, hmeta, hcache⟩ := ifMetaFor_ok is s lo mid stop hc hscan
-  refine ⟨M, Steps.single (fun nested p => ?_), hcache⟩
-  have hev := evalCondition_simple nested is cond v
-    { s with ifMeta := M, endTable := s.endTable.put (lineKey s stop) fullNameEndIf } hcs hf
-  apply runStep_cmd_continue nested is lo p v s mi none kwIf cond .ifC none v _ hi (resolve_if hk s)
-  simp only [runCmdF, runCmd, condSimple_bind_ne v hcs, Bool.false_eq_true, if_false, hmeta, hev, hv,
-    if_true]
+  refine ⟨M, Steps.singleF (fun f hf3 p => ?_), hcache⟩
+  have hev := hv.2 f hf3
+    { s with ifMeta := M, endTable := s.endTable.put (lineKey s stop) fullNameEndIf } hf rfl
+  apply runStep_cmd_continue _ is lo p v s mi none kwIf cond .ifC none v _ hi (resolve_if hk s)
+  simp only [runCmdF, runCmd, hv.1, Bool.false_eq_true, if_false, hmeta, hev, if_true]
   rfl
 
 theorem step_if_false_nil (is : List Instruction) (lo : Nat) (v : Vars) (s : Sdk) (mi : Meta)
-    (kwIf : Str) (cond : List Str) (stop : Nat)
+    (kwIf : Str) (cond : List Str) (stop : Nat) (em : List (List Str))
     (hi : is[lo]? = some ⟨mi, .script (mkInstr none kwIf cond)⟩) (hk : isIfKw kwIf = true)
-    (hcs : condSimple cond = true) (hf : s.fns = []) (hc : CacheOK is s)
+    (hf : s.fns = []) (hc : CacheOK is s)
     (hscan : findCommands ifTables is (lo + 1) = .ok ⟨[], stop⟩)
-    (hv : condVal (bind v (some cond)) = .ok false) :
+    (hv : CondSays is (bind v (some cond)) v s.emitted false em) :
     ∃ M, Steps is lo v s (stop + 1) v
-        { s with ifMeta := M, endTable := s.endTable.put (lineKey s stop) fullNameEndIf } ∧
+        { s with ifMeta := M, endTable := s.endTable.put (lineKey s stop) fullNameEndIf,
+                 emitted := em } ∧
       CacheOK is { s with ifMeta := M, endTable := s.endTable.put (lineKey s stop) fullNameEndIf } := by
   obtain ⟨M, hmeta, hcache⟩ := ifMetaFor_ok is s lo [] stop hc hscan
-  refine ⟨M, Steps.single (fun nested p => ?_), hcache⟩
-  have hev := evalCondition_simple nested is cond v
-    { s with ifMeta := M, endTable := s.endTable.put (lineKey s stop) fullNameEndIf } hcs hf
-  apply runStep_cmd_goto nested is lo p v s mi none kwIf cond .ifC none (stop + 1) v _ hi (resolve_if hk s)
-  simp only [runCmdF, runCmd, condSimple_bind_ne v hcs, Bool.false_eq_true, if_false, hmeta, hev, hv]
+  refine ⟨M, Steps.singleF (fun f hf3 p => ?_), hcache⟩
+  have hev := hv.2 f hf3
+    { s with ifMeta := M, endTable := s.endTable.put (lineKey s stop) fullNameEndIf } hf rfl
+  apply runStep_cmd_goto _ is lo p v s mi none kwIf cond .ifC none (stop + 1) v _ hi (resolve_if hk s)
+  simp only [runCmdF, runCmd, hv.1, Bool.false_eq_true, if_false, hmeta, hev]
 
 theorem step_if_false_cons (is : List Instruction) (lo : Nat) (v : Vars) (s : Sdk) (mi : Meta)
-    (kwIf : Str) (cond : List Str) (e : Nat) (rest : List Nat) (stop : Nat)
+    (kwIf : Str) (cond : List Str) (e : Nat) (rest : List Nat) (stop : Nat) (em : List (List Str))
     (hi : is[lo]? = some ⟨mi, .script (mkInstr none kwIf cond)⟩) (hk : isIfKw kwIf = true)
-    (hcs : condSimple cond = true) (hf : s.fns = []) (hc : CacheOK is s)
+    (hf : s.fns = []) (hc : CacheOK is s)
     (hscan : findCommands ifTables is (lo + 1) = .ok ⟨e :: rest, stop⟩)
-    (hv : condVal (bind v (some cond)) = .ok false) :
+    (hv : CondSays is (bind v (some cond)) v s.emitted false em) :
     ∃ M, Steps is lo v s e v
         { s with ifMeta := M, endTable := s.endTable.put (lineKey s stop) fullNameEndIf,
+                 emitted := em,
                  ifStack := { current := e, passed := false, elseIdx := 0, start := lo, stop := stop,
                               elses := e :: rest, ctx := s.lineCtx } :: s.ifStack } ∧
       CacheOK is { s with ifMeta := M, endTable := s.endTable.put (lineKey s stop) fullNameEndIf } := by
   obtain ⟨M, hmeta, hcache⟩ := ifMetaFor_ok is s lo (e :: rest) stop hc hscan
-  refine ⟨M, Steps.single (fun nested p => ?_), hcache⟩
-  have hev := evalCondition_simple nested is cond v
-    { s with ifMeta := M, endTable := s.endTable.put (lineKey s stop) fullNameEndIf } hcs hf
-  apply runStep_cmd_goto nested is lo p v s mi none kwIf cond .ifC none e v _ hi (resolve_if hk s)
-  simp only [runCmdF, runCmd, condSimple_bind_ne v hcs, Bool.false_eq_true, if_false, hmeta, hev, hv]
+  refine ⟨M, Steps.singleF (fun f hf3 p => ?_), hcache⟩
+  have hev := hv.2 f hf3
+    { s with ifMeta := M, endTable := s.endTable.put (lineKey s stop) fullNameEndIf } hf rfl
+  apply runStep_cmd_goto _ is lo p v s mi none kwIf cond .ifC none e v _ hi (resolve_if hk s)
+  simp only [runCmdF, runCmd, hv.1, Bool.false_eq_true, if_false, hmeta, hev]
 
 /-! ### else-lines -/
 
 theorem step_elif_passed (is : List Instruction) (l : Nat) (v : Vars) (s : Sdk) (mi : Meta)
     (kw : Str) (cond : List Str) (G : List IfCall) (own : IfCall) (K : List IfCall)
     (hi : is[l]? = some ⟨mi, .script (mkInstr none kw cond)⟩) (hk : isElifKw kw = true)
-    (hcs : condSimple cond = true)
+    (hne : (bind v (some cond)).isEmpty = false)
     (hst : s.ifStack = G ++ own :: K) (ho : own.current = l) (hctx : own.ctx = s.lineCtx)
     (hG : ∀ e ∈ G, e.current ≠ l) (hp : own.passed = true) :
     Steps is l v s (own.stop + 1) v { s with ifStack := K } := by
   refine Steps.single (fun nested p => ?_)
   apply runStep_cmd_goto nested is l p v s mi none kw cond .elseIf none (own.stop + 1) v _ hi
     (resolve_elif hk s)
-  simp only [runCmdF, runCmd, condSimple_bind_ne v hcs, Bool.false_eq_true, if_false, hst,
+  simp only [runCmdF, runCmd, hne, Bool.false_eq_true, if_false, hst,
     popIf_garb l s.lineCtx G own K ho hctx hG, hp, if_true]
 
 def elifNext (own : IfCall) : Nat :=
@@ -154,54 +164,59 @@ def elifNext (own : IfCall) : Nat :=
 
 theorem step_elif_true (is : List Instruction) (l : Nat) (v : Vars) (s : Sdk) (mi : Meta)
     (kw : Str) (cond : List Str) (G : List IfCall) (own : IfCall) (K : List IfCall)
+    (em : List (List Str))
     (hi : is[l]? = some ⟨mi, .script (mkInstr none kw cond)⟩) (hk : isElifKw kw = true)
-    (hcs : condSimple cond = true) (hf : s.fns = [])
+    (hf : s.fns = [])
     (hst : s.ifStack = G ++ own :: K) (ho : own.current = l) (hctx : own.ctx = s.lineCtx)
     (hG : ∀ e ∈ G, e.current ≠ l) (hp : own.passed = false)
-    (hv : condVal (bind v (some cond)) = .ok true) :
+    (hv : CondSays is (bind v (some cond)) v s.emitted true em) :
     Steps is l v s (l + 1) v
-      { s with ifStack := { own with current := elifNext own, passed := true, ctx := s.lineCtx } :: K } := by
-  refine Steps.single (fun nested p => ?_)
-  have hev := evalCondition_simple nested is cond v { s with ifStack := K } hcs hf
-  apply runStep_cmd_continue nested is l p v s mi none kw cond .elseIf none v _ hi
+      { s with emitted := em,
+               ifStack := { own with current := elifNext own, passed := true, ctx := s.lineCtx } :: K } := by
+  refine Steps.singleF (fun f hf3 p => ?_)
+  have hev := hv.2 f hf3 { s with ifStack := K } hf rfl
+  apply runStep_cmd_continue _ is l p v s mi none kw cond .elseIf none v _ hi
     (resolve_elif hk s)
-  simp only [runCmdF, runCmd, condSimple_bind_ne v hcs, Bool.false_eq_true, if_false, hst,
-    popIf_garb l s.lineCtx G own K ho hctx hG, hp, hev, hv, if_true]
+  simp only [runCmdF, runCmd, hv.1, Bool.false_eq_true, if_false, hst,
+    popIf_garb l s.lineCtx G own K ho hctx hG, hp, hev, if_true]
   rfl
 
 theorem step_elif_false_more (is : List Instruction) (l : Nat) (v : Vars) (s : Sdk) (mi : Meta)
     (kw : Str) (cond : List Str) (G : List IfCall) (own : IfCall) (K : List IfCall)
+    (em : List (List Str))
     (hi : is[l]? = some ⟨mi, .script (mkInstr none kw cond)⟩) (hk : isElifKw kw = true)
-    (hcs : condSimple cond = true) (hf : s.fns = [])
+    (hf : s.fns = [])
     (hst : s.ifStack = G ++ own :: K) (ho : own.current = l) (hctx : own.ctx = s.lineCtx)
     (hG : ∀ e ∈ G, e.current ≠ l) (hp : own.passed = false)
-    (hv : condVal (bind v (some cond)) = .ok false)
+    (hv : CondSays is (bind v (some cond)) v s.emitted false em)
     (hmore : own.elseIdx + 1 < own.elses.length) :
     Steps is l v s (own.elses[own.elseIdx + 1]?.getD 0) v
-      { s with ifStack := { own with current := own.elses[own.elseIdx + 1]?.getD 0, passed := false,
+      { s with emitted := em,
+               ifStack := { own with current := own.elses[own.elseIdx + 1]?.getD 0, passed := false,
                                      elseIdx := own.elseIdx + 1, ctx := s.lineCtx } :: K } := by
-  refine Steps.single (fun nested p => ?_)
-  have hev := evalCondition_simple nested is cond v { s with ifStack := K } hcs hf
-  apply runStep_cmd_goto nested is l p v s mi none kw cond .elseIf none _ v _ hi
+  refine Steps.singleF (fun f hf3 p => ?_)
+  have hev := hv.2 f hf3 { s with ifStack := K } hf rfl
+  apply runStep_cmd_goto _ is l p v s mi none kw cond .elseIf none _ v _ hi
     (resolve_elif hk s)
-  simp only [runCmdF, runCmd, condSimple_bind_ne v hcs, Bool.false_eq_true, if_false, hst,
-    popIf_garb l s.lineCtx G own K ho hctx hG, hp, hev, hv, hmore, if_true]
+  simp only [runCmdF, runCmd, hv.1, Bool.false_eq_true, if_false, hst,
+    popIf_garb l s.lineCtx G own K ho hctx hG, hp, hev, hmore, if_true]
 
 theorem step_elif_false_last (is : List Instruction) (l : Nat) (v : Vars) (s : Sdk) (mi : Meta)
     (kw : Str) (cond : List Str) (G : List IfCall) (own : IfCall) (K : List IfCall)
+    (em : List (List Str))
     (hi : is[l]? = some ⟨mi, .script (mkInstr none kw cond)⟩) (hk : isElifKw kw = true)
-    (hcs : condSimple cond = true) (hf : s.fns = [])
+    (hf : s.fns = [])
     (hst : s.ifStack = G ++ own :: K) (ho : own.current = l) (hctx : own.ctx = s.lineCtx)
     (hG : ∀ e ∈ G, e.current ≠ l) (hp : own.passed = false)
-    (hv : condVal (bind v (some cond)) = .ok false)
+    (hv : CondSays is (bind v (some cond)) v s.emitted false em)
     (hlast : ¬ own.elseIdx + 1 < own.elses.length) :
-    Steps is l v s (own.stop + 1) v { s with ifStack := K } := by
-  refine Steps.single (fun nested p => ?_)
-  have hev := evalCondition_simple nested is cond v { s with ifStack := K } hcs hf
-  apply runStep_cmd_goto nested is l p v s mi none kw cond .elseIf none _ v _ hi
+    Steps is l v s (own.stop + 1) v { s with emitted := em, ifStack := K } := by
+  refine Steps.singleF (fun f hf3 p => ?_)
+  have hev := hv.2 f hf3 { s with ifStack := K } hf rfl
+  apply runStep_cmd_goto _ is l p v s mi none kw cond .elseIf none _ v _ hi
     (resolve_elif hk s)
-  simp only [runCmdF, runCmd, condSimple_bind_ne v hcs, Bool.false_eq_true, if_false, hst,
-    popIf_garb l s.lineCtx G own K ho hctx hG, hp, hev, hv, hlast]
+  simp only [runCmdF, runCmd, hv.1, Bool.false_eq_true, if_false, hst,
+    popIf_garb l s.lineCtx G own K ho hctx hG, hp, hev, hlast]
 
 theorem step_else_passed (is : List Instruction) (l : Nat) (v : Vars) (s : Sdk) (mi : Meta)
     (kw : Str) (G : List IfCall) (own : IfCall) (K : List IfCall)
@@ -272,38 +287,39 @@ theorem step_endFor (is : List Instruction) (l : Nat) (v : Vars) (s : Sdk) (mi :
 /-! ### the `while` line -/
 
 theorem step_while_true (is : List Instruction) (lo : Nat) (v : Vars) (s : Sdk) (mi : Meta)
-    (kw : Str) (cond : List Str) (mid : List Nat) (stop : Nat)
+    (kw : Str) (cond : List Str) (mid : List Nat) (stop : Nat) (em : List (List Str))
     (hi : is[lo]? = some ⟨mi, .script (mkInstr none kw cond)⟩) (hk : isWhileKw kw = true)
-    (hcs : condSimple cond = true) (hf : s.fns = []) (hc : CacheOK is s)
+    (hf : s.fns = []) (hc : CacheOK is s)
     (hscan : findCommands whileTables is (lo + 1) = .ok ⟨mid, stop⟩)
-    (hv : condVal (bind v (some cond)) = .ok true) :
+    (hv : CondSays is (bind v (some cond)) v s.emitted true em) :
     ∃ M, Steps is lo v s (lo + 1) v
         { s with whileMeta := M, endTable := s.endTable.put (lineKey s stop) fullNameEndWhile,
+                 emitted := em,
                  whileStack := { start := lo, stop := stop, ctx := s.lineCtx } :: s.whileStack } ∧
       CacheOK is { s with whileMeta := M, endTable := s.endTable.put (lineKey s stop) fullNameEndWhile } := by
   obtain ⟨M, hmeta, hcache⟩ := whileMetaFor_ok is s lo mid stop hc hscan
-  refine ⟨M, Steps.single (fun nested p => ?_), hcache⟩
-  have hev := evalCondition_simple nested is cond v
-    { s with whileMeta := M, endTable := s.endTable.put (lineKey s stop) fullNameEndWhile } hcs hf
-  apply runStep_cmd_continue nested is lo p v s mi none kw cond .whileC none v _ hi (resolve_while hk s)
-  simp only [runCmdF, runCmd, condSimple_bind_ne v hcs, Bool.false_eq_true, if_false, hmeta, hev, hv,
-    if_true]
+  refine ⟨M, Steps.singleF (fun f hf3 p => ?_), hcache⟩
+  have hev := hv.2 f hf3
+    { s with whileMeta := M, endTable := s.endTable.put (lineKey s stop) fullNameEndWhile } hf rfl
+  apply runStep_cmd_continue _ is lo p v s mi none kw cond .whileC none v _ hi (resolve_while hk s)
+  simp only [runCmdF, runCmd, hv.1, Bool.false_eq_true, if_false, hmeta, hev, if_true]
 
 theorem step_while_false (is : List Instruction) (lo : Nat) (v : Vars) (s : Sdk) (mi : Meta)
-    (kw : Str) (cond : List Str) (mid : List Nat) (stop : Nat)
+    (kw : Str) (cond : List Str) (mid : List Nat) (stop : Nat) (em : List (List Str))
     (hi : is[lo]? = some ⟨mi, .script (mkInstr none kw cond)⟩) (hk : isWhileKw kw = true)
-    (hcs : condSimple cond = true) (hf : s.fns = []) (hc : CacheOK is s)
+    (hf : s.fns = []) (hc : CacheOK is s)
     (hscan : findCommands whileTables is (lo + 1) = .ok ⟨mid, stop⟩)
-    (hv : condVal (bind v (some cond)) = .ok false) :
+    (hv : CondSays is (bind v (some cond)) v s.emitted false em) :
     ∃ M, Steps is lo v s (stop + 1) v
-        { s with whileMeta := M, endTable := s.endTable.put (lineKey s stop) fullNameEndWhile } ∧
+        { s with whileMeta := M, endTable := s.endTable.put (lineKey s stop) fullNameEndWhile,
+                 emitted := em } ∧
       CacheOK is { s with whileMeta := M, endTable := s.endTable.put (lineKey s stop) fullNameEndWhile } := by
   obtain ⟨M, hmeta, hcache⟩ := whileMetaFor_ok is s lo mid stop hc hscan
-  refine ⟨M, Steps.single (fun nested p => ?_), hcache⟩
-  have hev := evalCondition_simple nested is cond v
-    { s with whileMeta := M, endTable := s.endTable.put (lineKey s stop) fullNameEndWhile } hcs hf
-  apply runStep_cmd_goto nested is lo p v s mi none kw cond .whileC none _ v _ hi (resolve_while hk s)
-  simp only [runCmdF, runCmd, condSimple_bind_ne v hcs, Bool.false_eq_true, if_false, hmeta, hev, hv]
+  refine ⟨M, Steps.singleF (fun f hf3 p => ?_), hcache⟩
+  have hev := hv.2 f hf3
+    { s with whileMeta := M, endTable := s.endTable.put (lineKey s stop) fullNameEndWhile } hf rfl
+  apply runStep_cmd_goto _ is lo p v s mi none kw cond .whileC none _ v _ hi (resolve_while hk s)
+  simp only [runCmdF, runCmd, hv.1, Bool.false_eq_true, if_false, hmeta, hev]
 
 /-! ### the `for` line -/
 
